@@ -6,7 +6,7 @@ from onl.netdev import Port, Wire
 from onl.packet import Packet, TCPSink
 
 ID = 'C16'
-SHRINK_KEEP = ('d_data', 'd_ack', 'rtt_est', 'cwnd', 'ssthresh')
+SHRINK_KEEP = ('d_data', 'd_ack', 'rtt_est', 'cwnd', 'ssthresh', 'chunk')
 TIERS = {'quick': {'runs': 6000, 'budget_s': 30}, 'thorough': {'runs': 300000, 'budget_s': 600}}
 RULE = ('(sink) arbitrary arrival sequences of MSS segments at a real TCPSink - permuted, duplicated, with gaps, first segment '
         'missing; (e2e) a real TCPPacketGenerator (Reno / CUBIC, 1-40 segments, random initial RTT estimate, cwnd, ssthresh) '
@@ -22,7 +22,7 @@ ASSUMPTIONS = ['flow sizes are multiples of the MSS (512)', 'completion is deman
                'every transmission']
 PROBES = ['sub_blackhole', 'second_connection', 'deadline_after_last_segment', 'synchronous_path', 'real_path', 'tail_drop_on_path', 'sub_sink', 'sub_e2e', 'sub_clean', 'rto_fired', 'fast_retransmit', 'ack_lost', 'data_lost', 'duplicate_delivered',
           'overtaken', 'cc_cubic', 'completed', 'inconclusive', 'first_segment_missing', 'sink_duplicate', 'sink_gap',
-          'clean_precondition_held', 'flow_without_a_full_segment', 'flow_without_finish_time', 'sink_recording_options']
+          'clean_precondition_held', 'flow_without_a_full_segment', 'flow_without_finish_time', 'sink_recording_options', 'application_chunks_not_in_mss_units']
 
 
 def gen(rng, tier):
@@ -89,6 +89,9 @@ def gen(rng, tier):
         # the sink's recording switches (what it keeps for statistics, whether it narrates) must not touch the protocol
         case['sink_opts'] = [rng.random() < 0.5, rng.random() < 0.5, rng.random() < 0.5, rng.random() < 0.7,
                              rng.random() < 0.5]
+    if rng.random() < 0.12:
+        # the application hands its data over in chunks of its own size (Flow.size_dist), not in MSS units
+        case['chunk'] = rng.choice([100, 200, 700, 1000, 1500, 512, 1024, 4000])
     if rng.random() < 0.05:
         # a flow without a single full segment: size 0, or less than one MSS - nothing may be sent, nothing invented
         case['segments'] = 0
@@ -114,7 +117,7 @@ def gen(rng, tier):
 def valid(case):
     if case.get('sub') == 'sink':
         return all(isinstance(x, int) and x >= 0 for x in case.get('arrivals', []))
-    return case.get('segments', 1) >= 0
+    return case.get('segments', 1) >= 0 and (case.get('chunk') is None or case['chunk'] >= 1)
 
 
 class AckRec:
@@ -335,6 +338,8 @@ def run_e2e(w, case):
                          'with sequence number %r' % (case.get('tail', 0), len(sent), sent[0][3])))
     if case.get('no_finish'):
         stats['flow_without_finish_time'] = 1
+    if case.get('chunk'):
+        stats['application_chunks_not_in_mss_units'] = 1
     bound = last_fault_t + 64 * n * max(max_rto, rtt, 1.0)
     if done:
         stats['completed'] = 1
